@@ -34,7 +34,13 @@ def main(argv):
                                   env=dict(os.environ, VF_SUBPASS="replay", **(xenv or {}))).returncode
         ctx = common.Ctx(pid)
         ctx.known_open = {}
-        res = list(mod.replay(ctx, rep["case"]))
+        if isinstance(rep.get("case"), dict) and "generated" in rep["case"]:
+            # a library exception caught at pass level: the case is the generator's draw, not a stand-alone input - the pass is run again
+            os.environ["VERIF_TIER"] = rep.get("tier", "quick") if rep.get("tier") in ("quick", "thorough") else "quick"
+            mod.run(ctx)
+            res = [(b, i["what"], i["case"]) for b, i in ctx.found.items() if b == rep.get("bucket") or "library-exception" in b]
+        else:
+            res = list(mod.replay(ctx, rep["case"]))
         if res:
             for b, w, _ in res:
                 print(f"  bucket {b}: {w}")
